@@ -97,6 +97,18 @@ def Item.eqStr : Item → List Char → Bool
   | .str s, t => s == t
   | .strs _, _ => false
 
+/-- a `__getitem__` result used as a string (`trans.append(gc[codon])`): for a three-character codon it is one; a codon
+list (one-character item) never reaches this use in the translated code (modelled as the empty string) -/
+def Item.asStr : Item → List Char
+  | .str s => s
+  | .strs _ => []
+
+/-- `try: x = m  except E: x = h` — the handler runs for exactly the named exception class -/
+def pyTry {α} (m : Except PyErr α) (e : PyErr) (h : Except PyErr α) : Except PyErr α :=
+  match m with
+  | .ok v => .ok v
+  | .error e' => if e' = e then h else .error e'
+
 /-- iterating over what `__getitem__` returned -/
 def Item.toList : Item → List (List Char)
   | .str s => s.map fun c => [c]
@@ -189,6 +201,8 @@ structure NSeq where
   gaps : List Char
   mtChars : List Char
   alpha : List Char
+  /-- `moltype.ambiguities` (old moltypes; used by old `get_translation` through `resolve_ambiguity`) -/
+  ambigs : List (Char × List Char) := []
   deriving DecidableEq
 
 def NSeq.len (s : NSeq) : Int := s.chars.length
@@ -230,7 +244,68 @@ def pyMulStr (s : List Char) (n : Int) : List Char := (List.replicate n.toNat s)
 def pyEnumerate {α} (xs : List α) : List (Int × α) := (enumFrom 0 xs).map fun p => ((p.2 : Int), p.1)
 def pyChars (s : List Char) : List (List Char) := s.map fun c => [c]
 
-def newSeqOf (mt : MT) (s : List Char) : NSeq := ⟨s, mt.gap, [mt.gap, mt.missing], mt.chars, newDegenGapped mt⟩
-def oldSeqOf (mt : MT) (s : List Char) : NSeq := ⟨s, mt.gap, [mt.gap, mt.missing], mt.chars, newDegenGapped mt⟩
+def newSeqOf (mt : MT) (s : List Char) : NSeq := ⟨s, mt.gap, [mt.gap, mt.missing], mt.chars, newDegenGapped mt, []⟩
+def oldSeqOf (mt : MT) (s : List Char) : NSeq := ⟨s, mt.gap, [mt.gap, mt.missing], mt.chars, newDegenGapped mt, oldAmbiguities mt⟩
+
+/-! ## the environment of old `Sequence.get_translation` (`core/sequence.py`): moltype label / `to_dna`, the codon
+alphabet of the genetic code, `moltype.resolve_ambiguity(codon, alphabet=…)`, the protein moltype's `what_ambiguity` -/
+
+/-- `self.moltype.label` of a nucleic-acid sequence -/
+def NSeq.label (s : NSeq) : List Char := if 'U' ∈ s.mtChars then ['r', 'n', 'a'] else ['d', 'n', 'a']
+
+/-- `self.to_dna()`: `U → T` in the sequence; the moltype becomes DNA -/
+def NSeq.toDna (s : NSeq) : NSeq :=
+  let f := fun c : Char => if c = 'U' then 'T' else if c = 'u' then 't' else c
+  { s with chars := s.chars.map f, mtChars := s.mtChars.map f, alpha := s.alpha.map f,
+           ambigs := s.ambigs.map fun kv => (f kv.1, kv.2.map f) }
+
+/-- `gc.get_alphabet(include_stop=…).with_gap_motif()`: `list(self.codons)` or `list(self.sense_codons)`, plus `"---"` -/
+def OldGC.codonAlphabet (g : OldGC) (includeStop : Bool) : List (List Char) :=
+  ((g.codons.filter fun kv => includeStop || kv.2 ≠ ['*']).map (·.1)) ++ [['-', '-', '-']]
+
+/-- `itertools.product(*resolved)` joined -/
+def pyProductAll : List (List Char) → List (List Char)
+  | [] => [[]]
+  | xs :: r => xs.flatMap fun x => (pyProductAll r).map fun t => x :: t
+
+def lookupOpt {α β} [DecidableEq α] : List (α × β) → α → Option β
+  | [], _ => none
+  | (a, b) :: r, k => if a = k then some b else lookupOpt r k
+
+/-- `moltype.resolve_ambiguity(ambig_motif, alphabet=alphabet)` (old moltypes, `alphabet` given): the motif itself when
+it is in the alphabet; otherwise every expansion (`self.ambiguities[c]` per character, a missing key is AlphabetError)
+that is in the alphabet; AlphabetError when there is none -/
+def NSeq.resolveAmbiguity (s : NSeq) (motif : List Char) (alphabet : List (List Char)) : Except PyErr (List (List Char)) :=
+  if motif ∈ alphabet then .ok [motif]
+  else
+    match motif.mapM (fun c => lookupOpt s.ambigs c) with
+    | none => .error .alphabetError
+    | some resolved =>
+      let result := pyProductAll resolved
+      let result := if alphabet ≠ [] then result.filter (fun e => e ∈ alphabet) else result
+      if result = [] then .error .alphabetError else .ok result
+
+/-- a protein moltype as far as `what_ambiguity` looks at it: `len(self.alphabet)`, `self.missing`, `self.ambiguities` -/
+structure PM where
+  nchars : Nat
+  missing : Char
+  ambigs : List (Char × List Char)
+
+def proteinChars : List Char :=
+  ['A', 'C', 'D', 'E', 'F', 'G', 'H', 'I', 'K', 'L', 'M', 'N', 'P', 'Q', 'R', 'S', 'T', 'U', 'V', 'W', 'Y']
+
+/-- `get_moltype("protein")` / `get_moltype("protein_with_stop")` (tables of `core/moltype.py`, compared with the runtime
+objects by the harness each run) -/
+def protMoltype (name : List Char) : PM :=
+  let chars := if name = "protein_with_stop".toList then proteinChars ++ ['*'] else proteinChars
+  let mt : MT := ⟨chars, '-', '?', [('B', ['N', 'D']), ('X', chars), ('Z', ['Q', 'E'])], []⟩
+  ⟨chars.length, '?', oldAmbiguities mt⟩
+
+/-- `protein.what_ambiguity(motifs)`: `frozenset(motifs)`, then the loop of `_what_ambiguity`; a motif that is not one
+character long is in no ambiguity set (the result is then `missing`) -/
+def PM.whatAmbiguity (p : PM) (motifs : List (List Char)) : List Char :=
+  if motifs.all (fun m => m.length = 1) then
+    [oldWhatLoop (toSet motifs.flatten) p.ambigs (p.nchars + 1) p.missing]
+  else [p.missing]
 
 end CogentModel.GCP
